@@ -157,6 +157,60 @@ theorem inventAll_spec (maxlen : Nat) : ∀ (batch : List (List Name)) (ns ns' r
           · exact fun hin => h3 x hx (List.mem_cons_of_mem _ hin)
         · refine List.nodup_cons.mpr ⟨fun hin => h3 r hin (List.mem_cons_self ..), h4⟩
 
+/-- **Whichever way a fresh name is chosen.** The property leaves the choice open ("a clash is resolved by choosing a fresh name or by
+    raising"): for *any* chooser that only ever answers with a name not in the namespace it was shown, the names of a batch — each
+    chosen against the live namespace, then inserted — are distinct from every name in the module and from each other, and the
+    namespace afterwards is the old one plus exactly those names. `inventAll` is the instance with `flatname`; a code that counts up
+    (`x_1`, `x_2`) instead of appending underscores is another. This is the statement the `batch_names` stream judges the
+    implementation by. -/
+theorem inventAllWith_spec (choose : List Name → List Name → Option Name)
+    (hfresh : ∀ ns segs r, choose ns segs = some r → r ∉ ns) :
+    ∀ (batch : List (List Name)) (ns ns' rs : List Name), inventAllWith choose ns batch = some (ns', rs) →
+      ns' = rs.reverse ++ ns ∧ rs.length = batch.length ∧ (∀ r ∈ rs, r ∉ ns) ∧ rs.Nodup
+  | [], ns, ns', rs, h => by
+    simp only [inventAllWith, Option.some.injEq, Prod.mk.injEq] at h
+    obtain ⟨rfl, rfl⟩ := h
+    simp
+  | segs :: rest, ns, ns', rs, h => by
+    simp only [inventAllWith] at h
+    cases hf : choose ns segs with
+    | none => simp [hf] at h
+    | some r =>
+      simp only [hf] at h
+      cases hr : inventAllWith choose (insertName ns r) rest with
+      | none => simp [hr] at h
+      | some p =>
+        obtain ⟨ns₂, rs₂⟩ := p
+        simp only [hr, Option.some.injEq, Prod.mk.injEq] at h
+        obtain ⟨rfl, rfl⟩ := h
+        obtain ⟨h1, h2, h3, h4⟩ := inventAllWith_spec choose hfresh rest (insertName ns r) ns₂ rs₂ hr
+        have hnew := hfresh ns segs r hf
+        refine ⟨?_, by simp [h2], ?_, ?_⟩
+        · rw [h1]; simp [insertName]
+        · intro x hx
+          rcases List.mem_cons.mp hx with rfl | hx
+          · exact hnew
+          · exact fun hin => h3 x hx (List.mem_cons_of_mem _ hin)
+        · refine List.nodup_cons.mpr ⟨fun hin => h3 r hin (List.mem_cons_self ..), h4⟩
+
+/-- `flatname` is such a chooser: `inventAll` is `inventAllWith` of it. -/
+theorem inventAll_is_instance (maxlen : Nat) : ∀ (batch : List (List Name)) (ns : List Name),
+    inventAll ns maxlen batch = inventAllWith (fun ns segs => flatname segs ns maxlen) ns batch
+  | [], ns => rfl
+  | segs :: rest, ns => by
+    simp only [inventAll, inventAllWith]
+    cases flatname segs ns maxlen with
+    | none => rfl
+    | some r => simp only [inventAll_is_instance maxlen rest (insertName ns r)]
+
+/-- Non-vacuity: a chooser that counts up instead of appending underscores. -/
+example :
+    let countUp : List Name → List Name → Option Name := fun ns segs =>
+      let base := join segs
+      if base ∉ ns then some base else ((List.range 5).map (fun k => base ++ '_' :: (toString (k + 1)).toList)).find? (· ∉ ns)
+    (inventAllWith countUp ["a_0".toList, "a_1".toList] [["a".toList, "0".toList], ["a".toList, "1".toList], ["a".toList, "0".toList]]).map (·.2.map String.ofList) =
+      some ["a_0_1", "a_1_1", "a_0_2"] := by decide
+
 /-- … so a namespace without duplicates stays without duplicates, whatever the designer called things. -/
 theorem inventAll_nodup (maxlen : Nat) (batch : List (List Name)) (ns ns' rs : List Name) (hns : ns.Nodup)
     (h : inventAll ns maxlen batch = some (ns', rs)) : ns'.Nodup ∧ ∀ n ∈ ns, n ∈ ns' := by
